@@ -44,3 +44,147 @@ Unit(
     preserves=["_tx_inh_by", "_tx_fqn", "__name__", "[]", "parent"],
     canary="result == True",
 )
+
+
+# --------------------------------------------------------------------------
+# process_node, abstract-rule branch: an abstract rule's own class is never instantiated - the node
+# yields the result of the FIRST child that is not a Terminal and whose rule is not a match rule, or the
+# concatenated text of the children when the matched alternative has only matches
+# --------------------------------------------------------------------------
+from txvc.props import extra, replay_for  # noqa: E402
+
+PN = "call:model.process_node"
+NONMATCH = "(cls({n}) != Terminal and {n}.rule._tx_class._tx_type != 'match')"
+
+Unit(
+    "model.process_node.abstract-branch",
+    target="textx/model.py::parse_tree_to_objgraph.process_node",
+    region="if:mclass._tx_type == RULE_ABSTRACT",
+    props=["C03"],
+    params={"node": "obj:NonTerminal[obj:ParseTreeNode]", "mclass": "obj"},
+    requires=["is_str(mclass._tx_type)", "len(node) >= 1",
+              # is_valid() of the parse tree below an abstract rule: every child that is not a Terminal was created
+              # by a root rule, which carries its class
+              "forall(lambda j: implies(0 <= j and j < len(node) and cls(node[j]) != Terminal,"
+              " is_ref(node[j].rule._tx_class) and is_str(node[j].rule._tx_class._tx_type)))"],
+    calls={"process_node": "model.process_node",
+           "process_match": Ext("process_match", note="conversion of a match-rule subtree to a Python value"),
+           "str": Ext("str", pure=True, raises=None, returns="str")},
+    returns="any",
+    ensures=[
+        ("C03-abstract-rule-yields-its-first-non-match-child",
+         f"implies(old(mclass._tx_type) == 'abstract' and old(len(node)) > 1"
+         f" and exists_in(0, old(len(node)), lambda j: old({NONMATCH.format(n='node[j]')})),"
+         f" n_calls('{PN}') == 1 and result == evn('{PN}', 0).result"
+         f" and exists_in(0, old(len(node)), lambda k: evn('{PN}', 0).args['node'] == old(node[k])"
+         f" and old({NONMATCH.format(n='node[k]')})"
+         f" and forall(lambda j: implies(0 <= j and j < k, not old({NONMATCH.format(n='node[j]')})))))"),
+        ("C03-only-matches-in-the-alternative-yield-text",
+         f"implies(old(mclass._tx_type) == 'abstract' and old(len(node)) > 1"
+         f" and not exists_in(0, old(len(node)), lambda j: old({NONMATCH.format(n='node[j]')})),"
+         f" n_calls('{PN}') == 0 and is_str(result))"),
+        ("C03-single-child-is-passed-through",
+         f"implies(old(mclass._tx_type) == 'abstract' and old(len(node)) == 1,"
+         f" n_calls('{PN}') == 1 and evn('{PN}', 0).args['node'] == old(node[0]) and result == evn('{PN}', 0).result)"),
+        ("C03-match-rule-yields-a-plain-value",
+         "implies(old(mclass._tx_type) == 'match', n_calls('process_match') == 1 and result == evn('process_match', 0).result"
+         f" and n_calls('{PN}') == 0)"),
+    ],
+    canary=f"n_calls('{PN}') == 0",
+)
+
+
+def _c03_battery():
+    from textx import metamodel_from_str, textx_isinstance
+
+    bad = []
+    # rule kinds and what a model contains
+    g = """
+    Model: exprs+=Expr things+=Thing others*=Other;
+    Expr: Paren | Num;
+    Paren: '(' Expr ')';
+    Num: 'n' name=ID;
+    Thing: Marked | Plain;
+    Marked: Mark Plain;
+    Mark: 'm' INT;
+    Plain: 'p' v=INT;
+    Other: Tag | 'o' Tag;
+    Tag: /#\\w+/;
+    """
+    mm = metamodel_from_str(g)
+    kinds = {c: mm[c]._tx_type for c in ("Model", "Expr", "Paren", "Num", "Thing", "Marked", "Mark", "Plain", "Other", "Tag")}
+    want = {"Model": "common", "Expr": "abstract", "Paren": "abstract", "Num": "common", "Thing": "abstract",
+            "Marked": "abstract", "Mark": "match", "Plain": "common", "Other": "match", "Tag": "match"}
+    if kinds != want:
+        bad.append(f"rule kinds {kinds}, expected {want}")
+    m = mm.model_from_str("n a ( n b ) ( ( n c ) ) m 1 p 2 p 3 #t o #u")
+    names = [getattr(e, "name", e) for e in m.exprs]
+    if names != ["a", "b", "c"] or any(type(e).__name__ != "Num" for e in m.exprs):
+        bad.append(f"exprs are {[type(e).__name__ for e in m.exprs]} {names}: an abstract rule must yield the object of "
+                   "its first non-match reference")
+    if [type(t).__name__ for t in m.things] != ["Plain", "Plain"] or [t.v for t in m.things] != [2, 3]:
+        bad.append(f"things are {[(type(t).__name__, getattr(t, 'v', t)) for t in m.things]}: 'Marked: Mark Plain' must "
+                   "yield the Plain object, not the text of the match rule Mark")
+    if m.others != ["#t", "o#u"]:
+        bad.append(f"match rules must yield plain values: others == {m.others!r}")
+    from textx import get_children
+
+    for o in get_children(lambda x: True, m):
+        if type(o).__name__ not in ("Model", "Num", "Plain"):
+            bad.append(f"the model contains an instance of {type(o).__name__}, a rule without assignments")
+    # textx_isinstance: own rule, OBJECT, reachable through abstract alternatives - also on recursive abstract rules
+    num, plain = m.exprs[1], m.things[0]
+    table = [(num, "Num", True), (num, "Expr", True), (num, "Paren", True), (num, "OBJECT", True), (num, "Thing", False),
+             (num, "Plain", False), (plain, "Thing", True), (plain, "Marked", True), (plain, "Expr", False),
+             (plain, "Paren", False)]
+    import sys
+
+    old = sys.getrecursionlimit()
+    sys.setrecursionlimit(400)
+    try:
+        for o, c, exp in table:
+            try:
+                got = textx_isinstance(o, mm[c])
+            except RecursionError:
+                got = "RecursionError"
+            if got != exp:
+                bad.append(f"textx_isinstance({type(o).__name__} object, {c}) == {got}, expected {exp}")
+        # a directly recursive abstract rule
+        mm2 = metamodel_from_str("Model: a=A other=Other; A: B | '(' A ')'; B: 'b' name=ID; Other: 'o' name=ID;")
+        m2 = mm2.model_from_str("(( b x )) o y")
+        if type(m2.a).__name__ != "B":
+            bad.append(f"recursive abstract rule yields {type(m2.a).__name__}")
+        for o, c, exp in ((m2.a, "A", True), (m2.other, "A", False), (m2.other, "B", False), (m2.a, "B", True)):
+            try:
+                got = textx_isinstance(o, mm2[c])
+            except RecursionError:
+                got = "RecursionError"
+            if got != exp:
+                bad.append(f"recursive abstract rule: textx_isinstance({type(o).__name__} object, {c}) == {got}, expected {exp}")
+    finally:
+        sys.setrecursionlimit(old)
+    return bad
+
+
+@extra("C03")
+def rule_kinds_battery(tier, seed):
+    bad = _c03_battery()
+    res = {"name": "lang.rule-kinds.battery", "backend": "native run of the real metamodel and loader (bounded stand-in)",
+           "obligations": 0, "discharged": 0, "bounded": True,
+           "bound": "2 grammars (nested / recursive abstract rules, match rules inside alternatives), 14 conformance queries",
+           "cases": 16, "violations": [], "detail": "rule kinds, classes of model objects, abstract-rule results, textx_isinstance"}
+    if bad:
+        res["violations"].append({"unit": "lang.rule-kinds.battery", "kind": "BOUNDED",
+                                  "label": "rule-kinds-and-conformance", "prop": "C03", "result": "refuted",
+                                  "text": "; ".join(bad[:4]), "where": "battery", "path": [],
+                                  "model": {"failures": bad[:8]}, "native": True, "time": 0, "reason": ""})
+    return res
+
+
+def _replay_c03(model, rec):
+    bad = _c03_battery()
+    return bool(bad), "; ".join(bad[:4]) or "rule-kind battery passes"
+
+
+for _u in ("lang.rule-kinds.battery", "model.process_node.abstract-branch", "model.textx_isinstance"):
+    replay_for(_u)(_replay_c03)
